@@ -670,18 +670,35 @@ pub fn conv(out_dir: &str, files: usize, thorough: bool, seed: u64) -> i32 {
                 }
             }
         }
+        // seeds with a length-prefixed window that contains ill-formed UTF-8, followed by more data
+        for tail in [&b"cdefgh\x04\x05"[..], b"\x02\x03zz", b"\xc3\xa9\x01"] {
+            for bad in [0xffu8, 0x80, 0xc3] {
+                let mut v = vec![b'a', b'b', bad];
+                v.extend_from_slice(tail);
+                inputs.push(v);
+            }
+        }
         for _ in 0..(if thorough { 3000 } else { 300 }) {
             let n = (r.next() % 40) as usize;
             inputs.push((0..n).map(|_| if r.next() % 3 == 0 { (r.next() % 256) as u8 } else { b'a' + (r.next() % 26) as u8 }).collect());
         }
         for inp in inputs {
             for rest in [false, true] {
+                let mut follow_same = true;
                 let (l, s): (arbitrary::Result<LeanString>, arbitrary::Result<&str>) = if rest {
                     (LeanString::arbitrary_take_rest(Unstructured::new(&inp)), <&str>::arbitrary_take_rest(Unstructured::new(&inp)))
                 } else {
-                    (LeanString::arbitrary(&mut Unstructured::new(&inp)), <&str>::arbitrary(&mut Unstructured::new(&inp)))
+                    // the same bytes must be consumed: what is left, and what the next draws yield, is the same
+                    let (mut u1, mut u2) = (Unstructured::new(&inp), Unstructured::new(&inp));
+                    let r = (LeanString::arbitrary(&mut u1), <&str>::arbitrary(&mut u2));
+                    follow_same &= u1.len() == u2.len();
+                    for _ in 0..2 {
+                        let (a, b) = (LeanString::arbitrary(&mut u1), <&str>::arbitrary(&mut u2));
+                        follow_same &= a.is_ok() == b.is_ok() && a.as_ref().map(|x| x.as_str().to_string()).ok() == b.map(|x| x.to_string()).ok() && u1.len() == u2.len();
+                    }
+                    r
                 };
-                let same = l.is_ok() == s.is_ok() && LeanString::size_hint(0) == <&str>::size_hint(0);
+                let same = follow_same && l.is_ok() == s.is_ok() && LeanString::size_hint(0) == <&str>::size_hint(0);
                 recs.push(json!({"k":"arb","inp":inp,"rest":rest,"ok":l.is_ok(),"same":same,
                     "text":l.as_ref().map(|x| x.as_bytes().to_vec()).unwrap_or_default(),"ref":s.as_ref().map(|x| x.as_bytes().to_vec()).unwrap_or_default()}));
                 *counts.entry("arb".into()).or_default() += 1;
